@@ -25,7 +25,7 @@ REPS = {
     "sOVER": [str(2**31), str(-2**31 - 1)], "sFRAC": ["1.5", "-0.25", "3.14"],
     "s2P53": [str(2**53), str(-2**53)], "sHUGE": [str(10**30)],
     "sEMPTY": [""], "sBLANK": [" ", "\t "], "sTXT": ["abc", "null"], "sUNI": ["é☃", "a\"b\\c"],
-    "sTRUE": ["true"], "sFALSE": ["false"],
+    "sTRUE": ["true"], "sFALSE": ["false"], "sNONFIN": ["nan", "inf", "-Infinity", "1e999", " inf "],
     "LIST": [[1], []], "DICT": [{"a": 1}], "BYTES": [b"x"], "TUPLE": [(1,)], "SET": [{1}], "OBJ": [Attrs()], "EXC": [ValueError("x")],
 }
 # literal spellings (GraphQL source text) of the tokens that have one
